@@ -75,6 +75,45 @@ def resolve(expr: ast.AST, defs: dict[str, ast.AST], depth: int = 3) -> ast.AST:
     return _Subst(defs, depth).visit(copy.deepcopy(expr))
 
 
+def inline_simple_calls(expr: ast.AST, lookup, depth: int = 2) -> ast.AST:
+    """Replace calls `self.m(a, b)` / `m(a, b)` whose callee body is `[docstring|assert]* return <expr>`
+    by that expression with the parameters substituted (a maintainer's "extract method" undone).
+    `lookup(call) -> ast.FunctionDef | None` resolves the callee."""
+    if depth <= 0:
+        return expr
+
+    class T(ast.NodeTransformer):
+        def visit_Call(self, node):
+            self.generic_visit(node)
+            fn = lookup(node)
+            if fn is None:
+                return node
+            body = [st for st in fn.body if not isinstance(st, ast.Assert)
+                    and not (isinstance(st, ast.Expr) and isinstance(st.value, ast.Constant))]
+            if len(body) != 1 or not isinstance(body[0], ast.Return) or body[0].value is None:
+                return node
+            params = [a.arg for a in fn.args.posonlyargs + fn.args.args]
+            if params and params[0] in ("self", "cls") and isinstance(node.func, ast.Attribute):
+                params = params[1:]
+            if fn.args.vararg or fn.args.kwarg or any(isinstance(a, ast.Starred) for a in node.args):
+                return node
+            binding = {}
+            for name, a in zip(params, node.args):
+                binding[name] = a
+            for k in node.keywords:
+                if k.arg is None:
+                    return node
+                binding[k.arg] = k.value
+            defaults = fn.args.defaults
+            for name, d in zip(params[len(params) - len(defaults):], defaults):
+                binding.setdefault(name, d)
+            if any(name not in binding for name in params):
+                return node
+            out = _Subst(binding, 1).visit(copy.deepcopy(body[0].value))
+            return inline_simple_calls(out, lookup, depth - 1)
+    return T().visit(copy.deepcopy(expr))
+
+
 def rnorm(expr: ast.AST, defs: dict[str, ast.AST], depth: int = 3) -> str:
     return norm(resolve(expr, defs, depth))
 
@@ -114,6 +153,48 @@ def edges_where(test: ast.AST, is_atom) -> dict[str, bool]:
                 out["f"] = inner["f"]
         return out
     return {}
+
+
+def kleene(test: ast.AST, classify, asg: dict) -> bool | None:
+    """Three-valued value of a test under an assignment of named atoms.
+    classify(expr) -> (atom_name, polarity) for a recognised atom, None otherwise (unknown leaf)."""
+    c = classify(test)
+    if c is not None:
+        name, pol = c
+        return asg[name] if pol else (not asg[name])
+    if isinstance(test, ast.UnaryOp) and isinstance(test.op, ast.Not):
+        v = kleene(test.operand, classify, asg)
+        return None if v is None else (not v)
+    if isinstance(test, ast.BoolOp):
+        vals = [kleene(v, classify, asg) for v in test.values]
+        if isinstance(test.op, ast.And):
+            if any(v is False for v in vals):
+                return False
+            return True if all(v is True for v in vals) else None
+        if any(v is True for v in vals):
+            return True
+        return False if all(v is False for v in vals) else None
+    return None
+
+
+def edges_implying(test: ast.AST, classify, names: list[str], ok) -> set[str]:
+    """Outgoing edges ('t'/'f') of a branch on which `ok(assignment)` holds for every assignment of
+    the named atoms that is consistent with taking that edge (truth-table over the atoms; leaves that
+    are not atoms are unknown and constrain nothing). Accepts nested/merged/negated/swapped forms."""
+    import itertools
+    out = set()
+    for k in ("t", "f"):
+        good = True
+        for vals in itertools.product((True, False), repeat=len(names)):
+            asg = dict(zip(names, vals))
+            v = kleene(test, classify, asg)
+            if v is None or v == (k == "t"):
+                if not ok(asg):
+                    good = False
+                    break
+        if good:
+            out.add(k)
+    return out
 
 
 def const_str(e) -> str | None:
